@@ -2,7 +2,7 @@
    The regex engine is a parameter (skip_name, skip_cls : outcomes of re.search). *)
 From Coq Require Import List Arith Bool.
 Import ListNotations.
-From KV Require Import Model.Register Proofs.RegisterP.
+From KV Require Import Model.Register Proofs.RegisterP Proofs.RegisterWalkP.
 
 (* the registered list is, in walk order, exactly the walked modules that are
    leaves, linear or conv2d (linear first), all of whose parameters require
@@ -17,6 +17,20 @@ Theorem registered_exactly_eligible : forall g sn sc root p id k,
 Proof.
   intros g sn sc root p id k. unfold register. rewrite filter_kind_In, eligible_spec. reflexivity.
 Qed.
+
+(* the walk itself (torch's named_modules: memoised pre-order, first path wins) lists a module under a
+   name only if that name is a genuine path of child names from the root to it ... *)
+Theorem walk_names_are_paths : forall g root p x,
+  In (p, x) (named_modules g root) -> rpath g root p x.
+Proof. exact named_modules_sound. Qed.
+
+(* ... and lists EVERY module reachable from the root (so, with registered_exactly_eligible and
+   registered_once: a module is registered iff it is reachable and eligible, exactly once, under
+   its first-path name); S (length g) units of fuel always suffice on a well-formed graph
+   (child ids inside the graph), for any sharing and any depth *)
+Theorem walk_reaches_everything : forall g root x,
+  wf_graph g -> root < length g -> reach g root x -> exists p, In (p, x) (named_modules g root).
+Proof. exact named_modules_complete. Qed.
 
 (* each module instance appears at most once in the walk and is registered at
    most once, also when it is shared (reachable by several paths) *)
@@ -47,3 +61,5 @@ Proof. split; reflexivity. Qed.
 Print Assumptions registered_exactly_eligible.
 Print Assumptions registered_once.
 Print Assumptions others_untouched.
+Print Assumptions walk_names_are_paths.
+Print Assumptions walk_reaches_everything.
